@@ -97,3 +97,19 @@ mut("c01-nak-acks-frame", "C01", ASH,
     "        self._cancel_pending_data_frames(NotAcked(frame=frame))",
     "        for fut in self._pending_data_frames.values():\n            if not fut.done():\n                fut.set_result(True)",
     checks=["C01", "C05"])
+
+# ---- C07 -------------------------------------------------------------------------------
+mut("c07-v8-header-swapped", "C07", "bellows/ezsp/v8/__init__.py",
+    "        hdr = [self._seq, 0x00, 0x01]", "        hdr = [self._seq, 0x01, 0x00]", checks=["C07", "C09"])
+mut("c07-v5-header-ext-byte", "C07", "bellows/ezsp/v5/__init__.py",
+    "        frame = [self._seq, 0x00, 0xFF, 0x00, cmd_id]", "        frame = [self._seq, 0x00, 0xFF, 0x01, cmd_id]", checks=["C07", "C09"])
+mut("c07-kwargs-override-order", "C07", "bellows/types/__init__.py",
+    "    return b\"\".join(t(params[k]).serialize() for k, t in schema.items())",
+    "    return b\"\".join(schema[k](v).serialize() for k, v in params.items())")
+mut("c07-v9-field-dropped", "C07", "bellows/ezsp/v9/commands.py",
+    "\"setChildData\": (", "\"setChildData_\": (")
+mut("c07-v4-rx-id-offset", "C07", "bellows/ezsp/v4/__init__.py",
+    "        return data[0], data[2], data[3:]", "        return data[0], data[2], data[4:]", checks=["C07", "C08"])
+mut("c07-v8-rx-id-8bit", "C07", "bellows/ezsp/v8/__init__.py",
+    "        frame_id, data = t.uint16_t.deserialize(data)\n", "        frame_id, data = data[0], data[2:]\n")
+mut("c07-duplicate-frame-id", "C07", "bellows/ezsp/v7/commands.py", "\"nop\": (\n        0x05,", "\"nop\": (\n        0x06,")
